@@ -1,4 +1,5 @@
 import Scfg.Basic
+import Std.Data.HashMap
 /-!
 # Decision-driven transition systems, traces, and a verified simulation checker
 
@@ -84,6 +85,113 @@ theorem verifySim_sound {α β : Type} [BEq α] [BEq β] [LawfulBEq α] [LawfulB
   intro ds
   exact run_eq_of_mem A B R h.2 ds a0 b0 (by simpa [List.contains_iff_mem] using h.1)
 
+/-! ## The same check with a certificate: `R` as an array plus, for every pair and decision, the
+index of the successor pair. Checking is linear in the size of `R`; the certificate comes from
+an untrusted hash-based search. -/
+
+theorem run_eq_of_closed {α β : Type} (A : Sys α) (B : Sys β) (P : α × β → Prop)
+    (hobs : ∀ p, P p → A.obs p.1 = B.obs p.2)
+    (hstep : ∀ p, P p → ∀ i, i < (A.obs p.1).arity → P (A.step p.1 i, B.step p.2 i)) :
+    ∀ (ds : List Nat) (a : α) (b : β), P (a, b) → run A a ds = run B b ds := by
+  intro ds
+  induction ds with
+  | nil => intro a b h; simp [run, hobs _ h]
+  | cons d ds ih =>
+    intro a b h
+    have ho := hobs _ h
+    simp only [run, ← ho]
+    by_cases hd : d < (A.obs a).arity
+    · simp [hd, ih _ _ (hstep _ h d hd)]
+    · simp [hd]
+
+def verifyCert {α β : Type} [BEq α] [BEq β] (A : Sys α) (B : Sys β) (R : Array (α × β))
+    (cert : Array (List Nat)) (a0 : α) (b0 : β) : Bool :=
+  (R[0]? == some (a0, b0)) &&
+  (List.range R.size).all fun k =>
+    match R[k]?, cert[k]? with
+    | some p, some js =>
+      A.obs p.1 == B.obs p.2 &&
+      (List.range (A.obs p.1).arity).all fun i =>
+        match js[i]? with
+        | some j => R[j]? == some (A.step p.1 i, B.step p.2 i)
+        | none => false
+    | _, _ => false
+
+theorem verifyCert_sound {α β : Type} [BEq α] [BEq β] [LawfulBEq α] [LawfulBEq β]
+    (A : Sys α) (B : Sys β) (R : Array (α × β)) (cert : Array (List Nat)) (a0 : α) (b0 : β)
+    (h : verifyCert A B R cert a0 b0 = true) : ∀ ds, run A a0 ds = run B b0 ds := by
+  simp only [verifyCert, Bool.and_eq_true, beq_iff_eq, List.all_eq_true, List.mem_range] at h
+  obtain ⟨h0, hall⟩ := h
+  intro ds
+  refine run_eq_of_closed A B (fun p => ∃ k, R[k]? = some p) ?_ ?_ ds a0 b0 ⟨0, h0⟩
+  · rintro p ⟨k, hk⟩
+    have hlt : k < R.size := by
+      rcases Nat.lt_or_ge k R.size with h | h
+      · exact h
+      · rw [Array.getElem?_eq_none h] at hk; cases hk
+    have := hall k hlt
+    rw [hk] at this
+    split at this
+    · next p' js hp hj =>
+      simp only [Option.some.injEq] at hp
+      subst hp
+      simp only [Bool.and_eq_true, beq_iff_eq] at this
+      exact this.1
+    · simp at this
+  · rintro p ⟨k, hk⟩ i hi
+    have hlt : k < R.size := by
+      rcases Nat.lt_or_ge k R.size with h | h
+      · exact h
+      · rw [Array.getElem?_eq_none h] at hk; cases hk
+    have := hall k hlt
+    rw [hk] at this
+    split at this
+    · next p' js hp hj =>
+      simp only [Option.some.injEq] at hp
+      subst hp
+      simp only [Bool.and_eq_true, beq_iff_eq, List.all_eq_true, List.mem_range] at this
+      have h2 := this.2 i hi
+      split at h2
+      · next j hjj => exact ⟨j, by simpa using h2⟩
+      · simp at h2
+    · simp at this
+
+/-- Untrusted hash-based search: breadth-first over the product, recording successor indices. -/
+def buildCert {α β : Type} [BEq α] [BEq β] [Hashable α] [Hashable β] (A : Sys α) (B : Sys β)
+    (a0 : α) (b0 : β) (limit : Nat) : Array (α × β) × Array (List Nat) := Id.run do
+  let mut R : Array (α × β) := #[(a0, b0)]
+  let mut idx : Std.HashMap (α × β) Nat := Std.HashMap.emptyWithCapacity 64 |>.insert (a0, b0) 0
+  let mut cert : Array (List Nat) := #[]
+  let mut k := 0
+  while k < R.size && k < limit do
+    match R[k]? with
+    | none => pure ()
+    | some p =>
+      let mut js : List Nat := []
+      for i in List.range (A.obs p.1).arity do
+        let q := (A.step p.1 i, B.step p.2 i)
+        match idx[q]? with
+        | some j => js := js ++ [j]
+        | none =>
+          let j := R.size
+          R := R.push q
+          idx := idx.insert q j
+          js := js ++ [j]
+      cert := cert.push js
+    k := k + 1
+  return (R, cert)
+
+def simOKc {α β : Type} [BEq α] [BEq β] [Hashable α] [Hashable β] (A : Sys α) (B : Sys β)
+    (a0 : α) (b0 : β) (limit : Nat) : Bool :=
+  let (R, cert) := buildCert A B a0 b0 limit
+  verifyCert A B R cert a0 b0
+
+theorem simOKc_sound {α β : Type} [BEq α] [BEq β] [LawfulBEq α] [LawfulBEq β] [Hashable α]
+    [Hashable β] (A : Sys α) (B : Sys β) (a0 : α) (b0 : β) (limit : Nat)
+    (h : simOKc A B a0 b0 limit = true) : ∀ ds, run A a0 ds = run B b0 ds := by
+  unfold simOKc at h
+  exact verifyCert_sound A B _ _ a0 b0 h
+
 /-- Untrusted worklist search for a candidate relation: explores the product from the start
     pair, following the decisions the *left* system offers. -/
 def buildSim {α β : Type} [BEq α] [BEq β] (A : Sys α) (B : Sys β) :
@@ -160,6 +268,114 @@ def reachOK {σ : Type} [BEq σ] (S : Sys σ) (bad : Obs → Bool) (s0 : σ) (fu
 theorem reachOK_sound {σ : Type} [BEq σ] [LawfulBEq σ] (S : Sys σ) (bad : Obs → Bool) (s0 : σ)
     (fuel : Nat) (h : reachOK S bad s0 fuel = true) : ∀ ds, ∀ o ∈ run S s0 ds, bad o = false :=
   invOK_sound S bad _ s0 h
+
+/-! ## Invariant check with a certificate -/
+
+theorem inv_of_closed {σ : Type} (S : Sys σ) (bad : Obs → Bool) (P : σ → Prop)
+    (hbad : ∀ s, P s → bad (S.obs s) = false)
+    (hstep : ∀ s, P s → ∀ i, i < (S.obs s).arity → P (S.step s i)) :
+    ∀ (ds : List Nat) (s : σ), P s → ∀ o ∈ run S s ds, bad o = false := by
+  intro ds
+  induction ds with
+  | nil =>
+    intro s hs o ho
+    simp only [run, List.mem_singleton] at ho
+    rw [ho]; exact hbad s hs
+  | cons d ds ih =>
+    intro s hs o ho
+    simp only [run, List.mem_cons] at ho
+    rcases ho with ho | ho
+    · rw [ho]; exact hbad s hs
+    · split at ho
+      · next hd => exact ih _ (hstep s hs d hd) o ho
+      · simp at ho
+
+def verifyInvCert {σ : Type} [BEq σ] (S : Sys σ) (bad : Obs → Bool) (R : Array σ)
+    (cert : Array (List Nat)) (s0 : σ) : Bool :=
+  (R[0]? == some s0) &&
+  (List.range R.size).all fun k =>
+    match R[k]?, cert[k]? with
+    | some s, some js =>
+      !bad (S.obs s) &&
+      (List.range (S.obs s).arity).all fun i =>
+        match js[i]? with
+        | some j => R[j]? == some (S.step s i)
+        | none => false
+    | _, _ => false
+
+theorem verifyInvCert_sound {σ : Type} [BEq σ] [LawfulBEq σ] (S : Sys σ) (bad : Obs → Bool)
+    (R : Array σ) (cert : Array (List Nat)) (s0 : σ) (h : verifyInvCert S bad R cert s0 = true) :
+    ∀ ds, ∀ o ∈ run S s0 ds, bad o = false := by
+  simp only [verifyInvCert, Bool.and_eq_true, beq_iff_eq, List.all_eq_true, List.mem_range] at h
+  obtain ⟨h0, hall⟩ := h
+  intro ds
+  refine inv_of_closed S bad (fun s => ∃ k, R[k]? = some s) ?_ ?_ ds s0 ⟨0, h0⟩
+  · rintro s ⟨k, hk⟩
+    have hlt : k < R.size := by
+      rcases Nat.lt_or_ge k R.size with h | h
+      · exact h
+      · rw [Array.getElem?_eq_none h] at hk; cases hk
+    have := hall k hlt
+    rw [hk] at this
+    split at this
+    · next s' js hp hj =>
+      simp only [Option.some.injEq] at hp
+      subst hp
+      simp only [Bool.and_eq_true, Bool.not_eq_true'] at this
+      exact this.1
+    · simp at this
+  · rintro s ⟨k, hk⟩ i hi
+    have hlt : k < R.size := by
+      rcases Nat.lt_or_ge k R.size with h | h
+      · exact h
+      · rw [Array.getElem?_eq_none h] at hk; cases hk
+    have := hall k hlt
+    rw [hk] at this
+    split at this
+    · next s' js hp hj =>
+      simp only [Option.some.injEq] at hp
+      subst hp
+      simp only [Bool.and_eq_true, List.all_eq_true, List.mem_range] at this
+      have h2 := this.2 i hi
+      split at h2
+      · next j hjj => exact ⟨j, by simpa using h2⟩
+      · simp at h2
+    · simp at this
+
+def buildReachCert {σ : Type} [BEq σ] [Hashable σ] (S : Sys σ) (s0 : σ) (limit : Nat) :
+    Array σ × Array (List Nat) := Id.run do
+  let mut R : Array σ := #[s0]
+  let mut idx : Std.HashMap σ Nat := Std.HashMap.emptyWithCapacity 64 |>.insert s0 0
+  let mut cert : Array (List Nat) := #[]
+  let mut k := 0
+  while k < R.size && k < limit do
+    match R[k]? with
+    | none => pure ()
+    | some s =>
+      let mut js : List Nat := []
+      for i in List.range (S.obs s).arity do
+        let q := S.step s i
+        match idx[q]? with
+        | some j => js := js ++ [j]
+        | none =>
+          let j := R.size
+          R := R.push q
+          idx := idx.insert q j
+          js := js ++ [j]
+      cert := cert.push js
+    k := k + 1
+  return (R, cert)
+
+def reachOKc {σ : Type} [BEq σ] [Hashable σ] (S : Sys σ) (bad : Obs → Bool) (s0 : σ)
+    (limit : Nat) : Bool :=
+  let (R, cert) := buildReachCert S s0 limit
+  verifyInvCert S bad R cert s0
+
+theorem reachOKc_sound {σ : Type} [BEq σ] [LawfulBEq σ] [Hashable σ] (S : Sys σ)
+    (bad : Obs → Bool) (s0 : σ) (limit : Nat) (h : reachOKc S bad s0 limit = true) :
+    ∀ ds, ∀ o ∈ run S s0 ds, bad o = false := by
+  unfold reachOKc at h
+  exact verifyInvCert_sound S bad _ _ s0 h
 
 /-- The first pair of the candidate relation that is not locally fine (diagnostics only). -/
 def firstBad {α β : Type} [BEq α] [BEq β] (A : Sys α) (B : Sys β) (R : List (α × β)) :
